@@ -487,3 +487,339 @@ func appendAfterSizedMake(p *Program, r *Report) {
 	// the rule's expected count on a correct tree is zero: one obligation records that the module was scanned
 	r.OK(p.Root.Syntax[0], "module scanned for append after make([]T, n)", fmtInt(n)+" sized-and-appended slices, each filled in place first")
 }
+
+// c02FreshMap: decoding a map replaces the destination: on every path to a SetMapIndex on the destination the
+// destination has been set to a fresh map (reflect.MakeMap / MakeMapWithSize) in this call. A map that is only made
+// when the destination is nil keeps the entries of the previous row when a variable (or a struct field of a reused
+// row object) is scanned into a second time: the value read back has keys that were never written.
+func c02FreshMap(p *Program, r *Report) {
+	n := 0
+	for _, fi := range p.SortedFuncs() {
+		if fi.Decl.Body == nil || fi.Pkg != p.Root {
+			continue
+		}
+		info := fi.Pkg.TypesInfo
+		var sites []*ast.CallExpr
+		for _, c := range callsIn(fi.Decl.Body) {
+			if calleeName(info, c) == "reflect.(Value).SetMapIndex" || strings.HasSuffix(calleeName(info, c), "Value).SetMapIndex") {
+				sites = append(sites, c)
+			}
+		}
+		if len(sites) == 0 {
+			continue
+		}
+		g := p.GraphOf(fi)
+		freshFor := func(nd ast.Node, dst string) bool {
+			hit := false
+			for _, c := range callsIn(nd) {
+				if !strings.HasSuffix(calleeName(info, c), "Value).Set") || len(c.Args) != 1 {
+					continue
+				}
+				rx := recvExpr(c)
+				if rx == nil || exprStr(rx) != dst {
+					continue
+				}
+				if mc, ok := ast.Unparen(c.Args[0]).(*ast.CallExpr); ok && strings.HasPrefix(calleeName(info, mc), "reflect.MakeMap") {
+					hit = true
+				}
+			}
+			return hit
+		}
+		for _, s := range sites {
+			rx := recvExpr(s)
+			if rx == nil {
+				continue
+			}
+			dst := exprStr(rx)
+			sol := Solve(g, Lattice[bool]{
+				Init: true,
+				Join: func(a, b bool) bool { return a || b },
+				Eq:   func(a, b bool) bool { return a == b },
+				Step: func(stale bool, st Step) bool {
+					if st.Kind == StNode && freshFor(st.Node, dst) {
+						return false
+					}
+					return stale
+				},
+			})
+			node, found := g.cfgNodeOf(s)
+			if !found {
+				r.Unresolved("%s: SetMapIndex at %s is not a node of the flow graph", fi.Name, p.Pos(s))
+				continue
+			}
+			stale, reach := sol.Before(node)
+			if !reach {
+				continue
+			}
+			n++
+			r.Check(!stale, s, fi.Name+" fills a map it made in this call", dst+".Set(reflect.MakeMap...) on every path",
+				"a path reaches "+dst+".SetMapIndex without "+dst+" having been set to a fresh map in this call: entries of an earlier decode into the same destination survive, and the value read back differs from the one written")
+		}
+	}
+	if n == 0 {
+		r.Unresolved("no SetMapIndex on a decode destination found")
+	}
+}
+
+// c02NoUnixNano: time.Time.UnixNano is undefined (wraps) for instants outside 1678..2262, while CQL timestamps,
+// dates and version-1 UUID times cover far more: a conversion through UnixNano writes another instant for such a
+// value without an error. Everywhere in the module a Time is turned into a number with Unix() / Nanosecond() (or
+// UnixMilli / UnixMicro, exact over every CQL range); UnixNano is accepted on the current time only (time.Now()).
+func c02NoUnixNano(p *Program, r *Report) {
+	n := 0
+	for _, fi := range p.SortedFuncs() {
+		if fi.Decl.Body == nil {
+			continue
+		}
+		info := fi.Pkg.TypesInfo
+		for _, c := range callsIn(fi.Decl.Body) {
+			name := calleeName(info, c)
+			if !strings.HasPrefix(name, "time.(Time).Unix") && !strings.HasPrefix(name, "(time.Time).Unix") {
+				continue
+			}
+			n++
+			if !strings.HasSuffix(name, "UnixNano") {
+				r.OK(c, fi.Name+" converts a time with a range-complete accessor", name)
+				continue
+			}
+			rx := recvExpr(c)
+			now := false
+			if rc, ok := ast.Unparen(rx).(*ast.CallExpr); ok && calleeName(info, rc) == "time.Now" {
+				now = true
+			}
+			if id, ok := ast.Unparen(rx).(*ast.Ident); ok {
+				if def := localDef(info, fi, id); def != nil {
+					if rc, ok := ast.Unparen(def).(*ast.CallExpr); ok && calleeName(info, rc) == "time.Now" {
+						now = true
+					}
+				}
+			}
+			r.Check(now, c, fi.Name+" converts a time with a range-complete accessor", "UnixNano of the current time",
+				exprStr(rx)+".UnixNano() overflows for instants outside 1678..2262: a date or timestamp outside that window is written as another instant, without an error")
+		}
+	}
+	if n == 0 {
+		r.Unresolved("no conversion of a time.Time to a Unix count found")
+	}
+}
+
+// c14WinnerStarts: the caller that inserted the in-flight entry (the lookup said "not found before") starts the
+// preparing goroutine on every path: between the insertion and the `go` statement there is no return. An entry whose
+// goroutine never runs is never completed and never removed: the statement is not prepared and every later
+// execution of it on that host waits until its own context ends.
+func c14WinnerStarts(p *Program, r *Report) {
+	fi, _, cb, _ := prepareParts(p, r)
+	if fi == nil {
+		return
+	}
+	info := fi.Pkg.TypesInfo
+	g := p.GraphOf(fi)
+	lookupNode, found := g.cfgNodeOf(cb.call)
+	if !found {
+		r.Unresolved("prepareStatement: the cache lookup is not a node of the flow graph")
+		return
+	}
+	// the "found before" result of the lookup
+	var okObj types.Object
+	if as, isA := p.stmtOf(cb.call, fi).(*ast.AssignStmt); isA && len(as.Lhs) == 2 {
+		if id, isId := as.Lhs[1].(*ast.Ident); isId {
+			okObj = info.Defs[id]
+			if okObj == nil {
+				okObj = info.Uses[id]
+			}
+		}
+	}
+	if okObj == nil {
+		r.Unresolved("prepareStatement: the lookup's found-before result is not bound to a variable")
+		return
+	}
+	var goNode ast.Node
+	inspectNoLit(fi.Decl.Body, func(x ast.Node) bool {
+		if gs, ok := x.(*ast.GoStmt); ok {
+			goNode = gs
+		}
+		return true
+	})
+	if goNode == nil {
+		r.Unresolved("prepareStatement starts no goroutine")
+		return
+	}
+	sol := Solve(g, Lattice[bool]{
+		Join: func(a, b bool) bool { return a || b },
+		Eq:   func(a, b bool) bool { return a == b },
+		Step: func(owed bool, st Step) bool {
+			switch st.Kind {
+			case StNode:
+				if st.Node == lookupNode {
+					return true
+				}
+				if st.Node == goNode {
+					return false
+				}
+			case StCond:
+				// the edge on which the entry was found (somebody else prepares it)
+				e := ast.Unparen(st.Node.(ast.Expr))
+				val := st.Val
+				if u, ok := e.(*ast.UnaryExpr); ok && u.Op == token.NOT {
+					e, val = ast.Unparen(u.X), !val
+				}
+				if isIdentOf(info, e, okObj) && val {
+					return false
+				}
+			}
+			return owed
+		},
+	})
+	n := 0
+	for _, e := range g.Exits() {
+		if e.Kind == ExitPanic {
+			continue
+		}
+		var owed, ok bool
+		var at ast.Node = fi.Decl
+		if e.Node != nil {
+			owed, ok = sol.Before(e.Node)
+			at = e.Node
+		} else {
+			owed, ok = sol.AtExit(e)
+		}
+		if !ok {
+			continue
+		}
+		n++
+		r.Check(!owed, at, "(*Conn).prepareStatement: the caller that inserted the in-flight entry has started the preparing goroutine before this exit", "go statement on every path from the insertion",
+			"a path returns here after the in-flight entry was inserted and before the preparing goroutine is started: done is never closed and the entry never removed, so the statement is never prepared and every later execution waits on it until its context ends")
+	}
+	if n == 0 {
+		r.Unresolved("prepareStatement has no exits")
+	}
+}
+
+// c11NestedCursor: a generator that walks a list of lists with a pair of persistent cursors (tier J, position K;
+// loop condition `K < len(X[J])`) moves to the next list as soon as K runs off the current one: on every path from
+// the advance of K to the next iteration or to a return, K is compared with len(X[J]) (the step that advances J and
+// resets K). A `continue` taken before that step leaves K == len(X[J]) with J unchanged: the loop condition fails and
+// every farther list is skipped - replicas of farther tiers are offered only after the non-replica hosts.
+func c11NestedCursor(p *Program, r *Report) {
+	n := 0
+	for lit, fi := range nextHostLits(p) {
+		info := fi.Pkg.TypesInfo
+		var loops []*ast.ForStmt
+		inspectNoLit(lit.Body, func(x ast.Node) bool {
+			if fs, ok := x.(*ast.ForStmt); ok && fs.Cond != nil {
+				loops = append(loops, fs)
+			}
+			return true
+		})
+		for _, fs := range loops {
+			// a conjunct K < len(X[J])
+			var kObj, jObj types.Object
+			var lenStr string
+			for _, cj := range conjuncts(fs.Cond) {
+				be, ok := ast.Unparen(cj).(*ast.BinaryExpr)
+				if !ok || be.Op != token.LSS {
+					continue
+				}
+				kid, isId := ast.Unparen(be.X).(*ast.Ident)
+				lc, isLen := ast.Unparen(be.Y).(*ast.CallExpr)
+				if !isId || !isLen || exprStr(lc.Fun) != "len" || len(lc.Args) != 1 {
+					continue
+				}
+				ix, isIx := ast.Unparen(lc.Args[0]).(*ast.IndexExpr)
+				if !isIx {
+					continue
+				}
+				jid, isJ := ast.Unparen(ix.Index).(*ast.Ident)
+				if !isJ {
+					continue
+				}
+				kObj, jObj, lenStr = info.Uses[kid], info.Uses[jid], exprStr(be.Y)
+			}
+			if kObj == nil || jObj == nil {
+				continue
+			}
+			// persistent cursors: declared outside the generator
+			if kObj.Pos() >= lit.Pos() && kObj.Pos() < lit.End() {
+				continue
+			}
+			g := p.GraphOfLit(fi, lit)
+			advances := func(nd ast.Node) bool {
+				hit := false
+				inspectNoLit(nd, func(x ast.Node) bool {
+					switch v := x.(type) {
+					case *ast.IncDecStmt:
+						if v.Tok == token.INC && isIdentOf(info, v.X, kObj) {
+							hit = true
+						}
+					case *ast.AssignStmt:
+						if v.Tok == token.ADD_ASSIGN && len(v.Lhs) == 1 && isIdentOf(info, v.Lhs[0], kObj) {
+							hit = true
+						}
+					}
+					return true
+				})
+				return hit
+			}
+			compares := func(e ast.Expr) bool {
+				hit := false
+				ast.Inspect(e, func(x ast.Node) bool {
+					if be, ok := x.(*ast.BinaryExpr); ok {
+						switch be.Op {
+						case token.GEQ, token.EQL, token.LSS, token.NEQ:
+							if isIdentOf(info, be.X, kObj) && exprStr(be.Y) == lenStr {
+								hit = true
+							}
+						}
+					}
+					return true
+				})
+				return hit
+			}
+			sol := Solve(g, Lattice[bool]{
+				Join: func(a, b bool) bool { return a || b },
+				Eq:   func(a, b bool) bool { return a == b },
+				Step: func(owed bool, st Step) bool {
+					switch st.Kind {
+					case StNode:
+						if _, isExpr := st.Node.(ast.Expr); !isExpr && advances(st.Node) {
+							return true
+						}
+					case StCond:
+						if e, ok := st.Node.(ast.Expr); ok && e != fs.Cond && compares(e) {
+							return false
+						}
+					}
+					return owed
+				},
+			})
+			check := func(at ast.Node, owed bool, what string) {
+				n++
+				r.Check(!owed, at, fi.Name+" generator: after advancing "+kObj.Name()+" the walk over "+lenStr+" moves to the next list before "+what, kObj.Name()+" compared with "+lenStr+" on every path",
+					"a path advances "+kObj.Name()+" and reaches "+what+" without comparing it with "+lenStr+": when the last entry of a list is passed over this way the loop condition fails with "+jObj.Name()+" unchanged and every farther list is skipped")
+			}
+			for _, be := range BackEdges(p, sol, fs, fs.Body.Pos()) {
+				check(be.Node, be.State, "the next iteration")
+			}
+			inspectNoLit(fs.Body, func(x ast.Node) bool {
+				if rs, ok := x.(*ast.ReturnStmt); ok {
+					if owed, reach := sol.Before(rs); reach {
+						check(rs, owed, "a return")
+					}
+				}
+				return true
+			})
+		}
+	}
+	if n == 0 {
+		r.Unresolved("no generator walks a list of lists with persistent cursors")
+	}
+}
+
+// conjuncts splits a condition at its top-level && operators.
+func conjuncts(e ast.Expr) []ast.Expr {
+	e = ast.Unparen(e)
+	if be, ok := e.(*ast.BinaryExpr); ok && be.Op == token.LAND {
+		return append(conjuncts(be.X), conjuncts(be.Y)...)
+	}
+	return []ast.Expr{e}
+}
